@@ -73,9 +73,32 @@ func kindSort(k Kind) string {
 	return "?"
 }
 
+// atomicKind: the types of sync/atomic are modelled as plain cells of their
+// payload kind (sequential reasoning; atomicity itself is C20's concern).
+func atomicKind(t types.Type) (Kind, bool) {
+	n, ok := t.(*types.Named)
+	if !ok || n.Obj().Pkg() == nil || n.Obj().Pkg().Path() != "sync/atomic" {
+		return 0, false
+	}
+	switch n.Obj().Name() {
+	case "Bool":
+		return KBool, true
+	case "Int32", "Int64", "Uint32", "Uint64", "Uintptr":
+		return KInt, true
+	case "Value":
+		return KAny, true
+	case "Pointer":
+		return KRef, true
+	}
+	return 0, false
+}
+
 func kindOf(t types.Type) Kind {
 	if t == nil {
 		return KUnit
+	}
+	if k, ok := atomicKind(t); ok {
+		return k
 	}
 	switch u := t.Underlying().(type) {
 	case *types.Basic:
